@@ -422,3 +422,51 @@ func TestVerifRender(t *testing.T) {
 		out.Emit(verifkit.M{"ev": "render", "i": i, "outcome": outcome, "ms": verifSlowest, "total_ms": time.Since(start).Milliseconds(), "size": size, "desc": desc, "what": verifkit.Clip(what, 200), "bytes": size0})
 	}
 }
+
+/*
+	Reading leaves the document as it is (C17, at the level of the constructors): every systematic object is built
+	through the constructor of its kind and through New, exercised, and compared with what it was - documents are
+	shared through the cache, a reader that rewrites one changes what every later reader sees.
+*/
+func TestVerifUnchanged(t *testing.T) {
+	out := verifkit.Out()
+	defer out.Close()
+	jtp.VerifSetTimeout(300 * time.Millisecond)
+	canon := func(v any) string {
+		data, err := json.Marshal(v)
+		if err != nil {
+			return "unmarshalable"
+		}
+		return string(data)
+	}
+	for i := len(verifStressBodies()); i < verifSystematicCount(); i++ {
+		o, kind, desc := verifSystematic(i)
+		before := canon(o)
+		id, _ := url.Parse("https://offline.invalid/x")
+		panicked, what := verifkit.Try(func() {
+			var item any
+			var err error
+			switch kind {
+			case 0:
+				item, err = NewPostFromObject(object.Object(o), id)
+			case 1:
+				item, err = NewActorFromObject(object.Object(o), id)
+			case 2:
+				item, err = NewActivityFromObject(object.Object(o), nil)
+			case 3:
+				item, err = NewCollectionFromObject(object.Object(o), id, NewTangible)
+			default:
+				item = New(map[string]any(o), nil)
+			}
+			if err == nil {
+				verifExercise(item)
+			}
+		})
+		ev := verifkit.M{"ev": "accessor", "acc": "GetAny", "class": "obj", "json": verifkit.Clip(desc, 80), "outcome": "value", "got": "", "want": "", "again": "",
+			"panic": false, "mutated": canon(o) != before}
+		if panicked {
+			ev["what"] = what /* a crash is C06's matter; here only the document counts */
+		}
+		out.Emit(ev)
+	}
+}
